@@ -455,6 +455,23 @@ func init() {
 			}
 			return []Value{Const(64, uint64(cnt))}
 		},
+		"logCountTo": func(s *State, fn *ssa.Function, args []Value, where string) []Value {
+			// logCountTo(w): how many recorded events since the call started have w as their target
+			wr, ok := args[0].(*IfaceV)
+			if !ok {
+				unsup("logCountTo: %T", args[0])
+			}
+			if s.cutLoopAt >= 0 && s.logBase() < s.cutLoopAt {
+				unsup("logCountTo over a range that contains a loop cut by an invariant")
+			}
+			cnt := Const(64, 0)
+			for i := s.logBase(); i < len(s.log); i++ {
+				e := &s.log[i]
+				c := And(Eq(e.targetType(), wr.Type), Eq(e.targetHandle(), wr.Handle))
+				cnt = Add(cnt, Ite(c, Const(64, 1), Const(64, 0)))
+			}
+			return []Value{cnt}
+		},
 		"blockingOps": func(s *State, fn *ssa.Function, args []Value, where string) []Value {
 			return []Value{Const(64, uint64(s.blocking))}
 		},
